@@ -673,5 +673,108 @@ theorem foldl_removeNode_keep_w_unweighted (hlaw : Lawful ops) (R : List Node) (
     obtain ⟨e, he, hs1, hv1⟩ := removeNode_keep_w_unweighted ops hlaw c hwf hw n e1 he1
     exact ⟨e, he, by rw [shrinkAll_cons, hs1]; exact hs, hv.trans hv1⟩
 
+/-! ### `filter_hypergraph` returns: every node / key it removes is present at that moment -/
+
+theorem removeNode_drop_wf (c : Content κ ω) (hwf : WF ops c) (n : Node) : WF ops (removeNode ops false c n) := by
+  rw [removeNode_drop ops c n hwf.nodesNodup hwf.keysNodup]
+  refine ⟨al_keys_filter_nodup _ _ hwf.nodesNodup, al_keys_filter_nodup _ _ hwf.keysNodup, ?_⟩
+  intro e he m hm
+  simp only [List.mem_filter, Bool.not_eq_true', ← Bool.not_eq_true, List.contains_iff_mem] at he
+  obtain ⟨x, hx, hxm⟩ := List.mem_map.mp (hwf.closed e he.1 m hm)
+  refine List.mem_map.mpr ⟨x, ?_, hxm⟩
+  simp only [List.mem_filter, Bool.not_eq_true', decide_eq_false_iff_not]
+  refine ⟨hx, fun h => he.2 ?_⟩
+  have : x.1 = m := hxm
+  rw [← h, this]; exact hm
+
+theorem removeNode_wf (hlaw : Lawful ops) (keep : Bool) (c : Content κ ω) (hwf : WF ops c) (n : Node) :
+    WF ops (removeNode ops keep c n) := by
+  cases keep
+  · exact removeNode_drop_wf ops c hwf n
+  · exact removeNode_keep_wf ops hlaw c hwf n
+
+theorem removeNode_nodes (hlaw : Lawful ops) (keep : Bool) (c : Content κ ω) (hwf : WF ops c) (n : Node) :
+    (removeNode ops keep c n).nodes = erase c.nodes n := by
+  cases keep
+  · rw [removeNode_drop ops c n hwf.nodesNodup hwf.keysNodup, al_erase_eq_filter _ _ hwf.nodesNodup]
+  · exact removeNode_keep_nodes ops hlaw c hwf n
+
+theorem foldlM_removeNode? (hlaw : Lawful ops) (keep : Bool) (R : List Node) (c : Content κ ω) (hwf : WF ops c)
+    (hR : R.Nodup) (hmem : ∀ n ∈ R, n ∈ keys c.nodes) :
+    R.foldlM (removeNode? ops keep) c = some (R.foldl (removeNode ops keep) c) := by
+  induction R generalizing c with
+  | nil => rfl
+  | cons n R ih =>
+    simp only [List.nodup_cons] at hR
+    have h1 : removeNode? ops keep c n = some (removeNode ops keep c n) := by
+      unfold removeNode?
+      rw [if_pos ((al_isSome_iff_mem _ _).mpr (hmem n List.mem_cons_self))]
+    rw [List.foldlM_cons, h1, List.foldl_cons]
+    simp only [Option.bind_eq_bind, Option.bind_some]
+    apply ih _ (removeNode_wf ops hlaw keep c hwf n) hR.2
+    intro m hm
+    rw [removeNode_nodes ops hlaw keep c hwf n, keys_erase_perm]
+    exact (List.mem_erase_of_ne (fun (h : m = n) => hR.1 (h ▸ hm))).mpr (hmem m (List.mem_cons_of_mem _ hm))
+
+theorem foldlM_removeEdge? (K : List κ) (c : Content κ ω) (hnd : (keys c.edges).Nodup) (hK : K.Nodup)
+    (hmem : ∀ k ∈ K, k ∈ keys c.edges) :
+    K.foldlM removeEdge? c = some (K.foldl removeEdge c) := by
+  induction K generalizing c with
+  | nil => rfl
+  | cons k K ih =>
+    simp only [List.nodup_cons] at hK
+    have h1 : removeEdge? c k = some (removeEdge c k) := by
+      unfold removeEdge?
+      rw [if_pos ((al_isSome_iff_mem _ _).mpr (hmem k List.mem_cons_self))]
+    rw [List.foldlM_cons, h1, List.foldl_cons]
+    simp only [Option.bind_eq_bind, Option.bind_some]
+    apply ih _ (al_keys_erase_nodup _ _ hnd) hK.2
+    intro k' hk'
+    simp only [removeEdge]
+    rw [keys_erase_perm]
+    exact (List.mem_erase_of_ne (fun (h : k' = k) => hK.1 (h ▸ hk'))).mpr (hmem k' (List.mem_cons_of_mem _ hk'))
+
+theorem foldl_removeNode_wf (hlaw : Lawful ops) (keep : Bool) (R : List Node) (c : Content κ ω) (hwf : WF ops c) :
+    WF ops (R.foldl (removeNode ops keep) c) := by
+  induction R generalizing c with
+  | nil => exact hwf
+  | cons n R ih => exact ih _ (removeNode_wf ops hlaw keep c hwf n)
+
+theorem nodePhase_wf (hlaw : Lawful ops) (c : Content κ ω) (hwf : WF ops c) (nc : Option Crit) (mode : Mode)
+    (keep : Bool) : WF ops (nodePhase ops c nc mode keep) := by
+  cases nc with
+  | none => exact hwf
+  | some cr => exact foldl_removeNode_wf ops hlaw keep _ c hwf
+
+theorem map_fst_filter_nodup {α β : Type} [DecidableEq α] (l : List (α × β)) (p : α × β → Bool) (h : (keys l).Nodup) :
+    ((l.filter p).map (·.1)).Nodup := al_keys_filter_nodup l p h
+
+theorem filterHg?_eq (hlaw : Lawful ops) (c : Content κ ω) (hwf : WF ops c) (nc ec : Option Crit) (mode : Mode)
+    (keep : Bool) : filterHg? ops c nc ec mode keep = some (filterHg ops c nc ec mode keep) := by
+  have hn : nodePhase? ops c nc mode keep = some (nodePhase ops c nc mode keep) := by
+    cases nc with
+    | none => rfl
+    | some cr =>
+      simp only [nodePhase?, nodePhase]
+      apply foldlM_removeNode? ops hlaw keep _ c hwf
+      · exact map_fst_filter_nodup _ _ hwf.nodesNodup
+      · intro n hn
+        simp only [nodesToProcess, List.mem_map, List.mem_filter] at hn
+        obtain ⟨x, ⟨hx, _⟩, rfl⟩ := hn
+        exact al_mem_keys_of_mem hx
+  have hwf1 := nodePhase_wf ops hlaw c hwf nc mode keep
+  unfold filterHg? filterHg
+  rw [hn, Option.bind_some]
+  cases ec with
+  | none => rfl
+  | some cr =>
+    simp only [edgePhase?, edgePhase]
+    apply foldlM_removeEdge? _ _ hwf1.keysNodup
+    · exact map_fst_filter_nodup _ _ hwf1.keysNodup
+    · intro k hk
+      simp only [edgesToProcess, List.mem_map, List.mem_filter] at hk
+      obtain ⟨x, ⟨hx, _⟩, rfl⟩ := hk
+      exact al_mem_keys_of_mem hx
+
 end keep
 end C19
